@@ -3,6 +3,7 @@
 (* (optuna.storages.fail_stale_trials / Study.optimize on RDBStorage with heartbeats, SQLite).          *)
 (* Events, in scheduler order:                                                                        *)
 (*   trial    : a trial exists: n, state, beat ("none" | "fresh" | "stale"), hist (retry history), pk    *)
+(*              (or beat = "aged" with age and grace in seconds: family "clock", see BeatOf)             *)
 (*              (token of its params / user attrs / intermediate values)                                *)
 (*   beat     : the harness changes the heartbeat of trial n (a worker dies / lives)                     *)
 (*   fail     : a FAIL request of worker w on trial n answered True (inside the sweep)                   *)
@@ -40,11 +41,15 @@ MaxRetry == Trace.cfg.max_retry
 Init == TraceInitBase /\ known = <<>> /\ failedBy = <<>> /\ called = <<>> /\ done = {}
         /\ base = <<>> /\ wr = <<>> /\ fopen = <<>> /\ fiv = <<>>
 
+\* Family "clock" (the database clock is frozen by the harness): the event carries the AGE of the heartbeat at the time of the
+\* sweeps and the grace period, both in whole seconds; "older than the grace period" is decided here, not by the harness.
+BeatOf(e) == IF "age" \in DOMAIN e THEN (IF e.age > e.grace THEN "stale" ELSE "fresh") ELSE e.beat
+
 TrialEv == /\ Is("trial")
-           /\ known' = Upd(known, Ev.n, [state |-> Ev.state, beat |-> Ev.beat, hist |-> Ev.hist, pk |-> Ev.pk, pkiv |-> Ev.pkiv])
+           /\ known' = Upd(known, Ev.n, [state |-> Ev.state, beat |-> BeatOf(Ev), hist |-> Ev.hist, pk |-> Ev.pk, pkiv |-> Ev.pkiv])
            /\ UNCHANGED <<failedBy, called, done>> /\ UNCHANGED zvars
 BeatEv == /\ Is("beat") /\ Ev.n \in DOMAIN known
-          /\ known' = [known EXCEPT ![Ev.n].beat = Ev.beat, ![Ev.n].state = Ev.state] /\ UNCHANGED <<failedBy, called, done>>
+          /\ known' = [known EXCEPT ![Ev.n].beat = BeatOf(Ev), ![Ev.n].state = Ev.state] /\ UNCHANGED <<failedBy, called, done>>
           /\ UNCHANGED zvars
 
 Fail == /\ Is("fail") /\ Ev.n \in DOMAIN known
